@@ -17,8 +17,9 @@ THRESHOLDS = {
     "solve_bit_identical": 0.5,       # same system + same right-hand side => same bits, whichever copy solves it
     "op_completes": 0.5,              # the operation returned normally (no exception; empty-source probes: child survived)
     # max|x - x_ref| / max|x_ref| against a long-double dense LU with pivoting; the generated systems are strictly
-    # diagonally dominant (ratio >= 1.5, n <= 12), so cond_inf <= 5 and a backward-stable solve gives <= ~1e-15.
-    # A solve that uses the wrong factorisation state is off by 1e-2..1; 1e-12 leaves both margins wide.
+    # diagonally dominant (every row: |a_ii| >= 1.5 * off-diagonal sum + 0.5 * scale, n <= 12), so cond_inf <= ~20 and
+    # LDL^T / LU without pivoting are backward stable: observed <= 6e-16 over > 1e6 solves.  A solve that uses the wrong
+    # factorisation state is off by 1e-2..1e+26; 1e-12 is > 1000x above the former and 1e10x below the latter.
     "solve_vs_dense": 1e-12,
 }
 MIN_NONTRIVIAL = {"quick": 2000, "thorough": 30000}
@@ -40,9 +41,11 @@ ASSUMPTIONS = [
     "setting entries of a tridiagonal solver after its first solve is not part of the histories (the class offers no way to "
     "drop a factorisation other than assigning a new solver, which is part of the histories)",
     "solver matrices are strictly diagonally dominant (LU without pivoting and LDL^T are stable there), n <= 12",
-    "operations whose source is empty are first tried in a forked child; if the child dies the operation is recorded as "
-    "not completing and skipped in the parent history",
-    "sampling: only generated histories are covered; memory leaks are not judged (LeakSanitizer would stop the worker)",
+    "operations in which an empty (default-constructed / moved-from) object takes part as source or assignment target are "
+    "first tried in a forked child; if the child dies or throws, the operation is recorded as not completing (with the "
+    "signal / sanitizer report / exception as key suffix) and skipped in the parent history",
+    "sampling: only generated histories are covered; memory leaks are not judged as violations (a LeakSanitizer report at "
+    "worker exit makes the run inconclusive)",
 ]
 TECHNIQUE = ("value-semantics model monitor under ASan/UBSan and under -O2 with assertions: random operation histories on the real "
              "classes, a plain dense model per object, bitwise comparison of everything readable after every step, solves "
